@@ -1,7 +1,7 @@
 (* C10 at the level of histories, part 6 (C10L): C10H_restart_old for scripts with
    further operations before and after the ID change. The script is
-   pre ++ [RegenerateID] ++ post where pre and post consist of Set, Delete and
-   Get. After a crash at any persistence-call boundary of the step, a request
+   pre ++ [RegenerateID] ++ post where pre and post consist of Set, Delete,
+   Get and GetAndDelete. After a crash at any persistence-call boundary of the step, a request
    presenting the old ID is served a session with the pre-call user and with
    data that the handler's session had after some prefix of its operations: no
    torn state, nothing lost that a completed operation stored before the crash
@@ -9,7 +9,8 @@
 From Sessions Require Import Model.Base Model.Sess Model.Hist Proofs.SessDefs
   Proofs.HistInv Proofs.HistInv2 Proofs.HistInv3.
 From Sessions Require Proofs.CrashFault Proofs.CrashFault2 Proofs.CrashFault3 Proofs.CrashFault5
-  Proofs.CrashFault6 Proofs.LiveHist4 Proofs.LiveHist8 Proofs.UserHist Proofs.UserHist2 Proofs.RotateLaws2.
+  Proofs.CrashFault6 Proofs.LiveHist4 Proofs.LiveHist8 Proofs.UserHist Proofs.UserHist2 Proofs.RotateLaws2
+  Proofs.GetDelShape.
 From Sessions Require Import Proofs.CrashRestart Proofs.CrashRestart2 Proofs.CrashRestart3 Proofs.CrashRestart4
   Proofs.CrashRestart5.
 From Coq Require Import Lia.
@@ -76,11 +77,11 @@ Qed.
 (* ------------------------------------------------- the plain operations *)
 
 Definition plainop (op : sop) : bool :=
-  match op with SSet _ _ | SDel _ | SGet _ => true | _ => false end.
+  match op with SSet _ _ | SDel _ | SGet _ | SGetDel _ => true | _ => false end.
 
 (* the data after an operation, after a list of operations *)
 Definition dnext (d : list (N * N)) (op : sop) : list (N * N) :=
-  match op with SSet k v => kv_set d k v | SDel k => kv_del d k | _ => d end.
+  match op with SSet k v => kv_set d k v | SDel k | SGetDel k => kv_del d k | _ => d end.
 Definition dafter (d : list (N * N)) (ops : list sop) : list (N * N) := fold_left dnext ops d.
 
 (* x is the data after some prefix of ops, starting from d *)
@@ -167,6 +168,22 @@ Proof.
     split; [reflexivity|]. split; [reflexivity|]. split; [reflexivity|]. split; [exact Hp|].
     split; [reflexivity|]. split; [reflexivity|]. split; [reflexivity|]. split; [reflexivity|]. split; [left; reflexivity|].
     intros r0 A B. exists r0. auto.
+  - (* GetAndDelete: as Delete when the key is found, else nothing *)
+    unfold data_of. rewrite Ho, Hd. destruct (kv_get d k) as [v|] eqn:Ek.
+    + destruct (Hmod (fun r0 => set_data r0 (Some (kv_del d k))) (fun _ => eq_refl) (fun _ => eq_refl))
+        as (s1 & E & A1 & A2 & A3 & A4 & A5 & A6 & A7 & A8 & A9 & A10).
+      rewrite E. do 4 eexists. split; [reflexivity|]. split; [reflexivity|]. split; [exact A1|].
+      split; [reflexivity|]. split; [reflexivity|]. split; [reflexivity|]. split; [reflexivity|].
+      split; [exact A2|]. split; [exact A3|]. split; [exact A4|]. split; [exact A5|]. split; [exact A6|].
+      split; [exact A7|]. split; [exact A8|]. split; [exact A9|]. split; [right; reflexivity|].
+      intros r0 _ _. eexists. split; [exact A10 | reflexivity].
+    + exists s, (SVal None), ob, [].
+      split; [reflexivity|]. split; [reflexivity|]. split; [exact Ho|].
+      split; [reflexivity|]. split; [reflexivity|]. split; [reflexivity|].
+      split; [cbn [dnext]; rewrite (GetDelShape.kv_del_absent _ _ Ek); exact Hd|].
+      split; [reflexivity|]. split; [reflexivity|]. split; [reflexivity|]. split; [exact Hp|].
+      split; [reflexivity|]. split; [reflexivity|]. split; [reflexivity|]. split; [reflexivity|]. split; [left; reflexivity|].
+      intros r0 A B. exists r0. auto.
 Qed.
 
 (* a list of plain operations, no clean-up due *)
@@ -392,8 +409,8 @@ Qed.
 Lemma DS_meaning d ops x : DS d ops x <-> exists j, (j <= length ops)%nat /\ x = fold_left dnext (firstn j ops) d.
 Proof. reflexivity. Qed.
 
-Lemma plainop_def op : plainop op = match op with SSet _ _ | SDel _ | SGet _ => true | _ => false end.
+Lemma plainop_def op : plainop op = match op with SSet _ _ | SDel _ | SGet _ | SGetDel _ => true | _ => false end.
 Proof. reflexivity. Qed.
 
-Lemma dnext_def d op : dnext d op = match op with SSet k v => kv_set d k v | SDel k => kv_del d k | _ => d end.
+Lemma dnext_def d op : dnext d op = match op with SSet k v => kv_set d k v | SDel k | SGetDel k => kv_del d k | _ => d end.
 Proof. reflexivity. Qed.
